@@ -1593,6 +1593,8 @@ class XInterp(Interp):
             return _BUILTINS[e.id] if e.id != "isinstance" else self._isinstance
         if e.id == "issubclass":
             return self._issubclass
+        if e.id == "type":
+            return self._type
         return self.global_lookup(self.module, e.id)
 
     def global_lookup(self, m: Module, name: str) -> Any:
@@ -1778,6 +1780,11 @@ class XInterp(Interp):
             elif isinstance(obj, Raised) and (nm == obj.name or nm in ("Exception", "BaseException")):
                 return True
         return False
+
+    def _type(self, obj: Any) -> Any:
+        if isinstance(obj, Record) and obj._cls in self.world.classes:
+            return self.world.classes[obj._cls]
+        raise Unsupported("type() of a value that is not an instance of a repository class")
 
     def _issubclass(self, a: Any, b: Any) -> bool:
         bs = b if isinstance(b, tuple) else (b,)
